@@ -254,8 +254,19 @@ class SymPattern:
         if op in (sc.ASSERT, sc.ASSERT_NOT):
             direction, sub = av
             if direction != 1:
-                raise Unsupported('lookbehind')
-            r = self.m(list(sub), 0, s, pos, groups, lambda p, g: (p, g))
+                # lookbehind: re only admits fixed-width subpatterns, so
+                # the match, if any, starts exactly width characters back
+                lo, hi = sub.getwidth()
+                if lo != hi or not isinstance(pos, int):
+                    raise Unsupported('lookbehind')
+                if pos - lo < 0:
+                    r = None
+                else:
+                    r = self.m(list(sub), 0, s, pos - lo, groups,
+                               lambda p, g: (p, g) if p == pos else None)
+            else:
+                r = self.m(list(sub), 0, s, pos, groups,
+                           lambda p, g: (p, g))
             if op is sc.ASSERT:
                 return nxt(pos, r[1]) if r is not None else None
             return nxt(pos, groups) if r is None else None
